@@ -9,7 +9,8 @@ EXPLANATION = ("Decision tables of ConnectStream::run (capsule / FIN / reset -> 
                "(stores exactly run_impl's error; QUIC close code), ConnectionError::with_driver_error / no_connect / "
                "From<quinn::ConnectionError>, and the six Driver waiters are extracted from MIR on every path and compared "
                "with the reference rows; plus the EOF classification below it: GetVarint reports ImmediateFin iff no byte of the frame was consumed "
-               "(state kept in the future, not in a poll-local), later fields and the eight read_frame mappings turn a FIN inside a frame into H3 FRAME_ERROR.")
+               "(state kept in the future, not in a poll-local), later fields and the eight read_frame mappings turn a FIN inside a frame into H3 FRAME_ERROR."
+               ' Also: the largest admissible close capsule (1024-byte reason) fits the frame payload cap of the readers (two cooperating constants).')
 NOT_DECIDED = ["that the event is delivered at every point of the session's life under a concrete schedule (see C05 finding F1)",
                "quinn's delivery of CONNECTION_CLOSE"]
 TRUSTED = ["rustc MIR", "u32::from_be_bytes / str::from_utf8 / slice indexing semantics (std)", "quinn::ConnectionError field meaning"]
